@@ -28,6 +28,9 @@ TRUSTED = ["threading.Condition is a monitor: the body of `with cond` runs in mu
 NOT_DECIDED = ["termination / liveness for every interleaving: deadlock freedom is argued from the lock-level obligations (every acquisition site respects callback < tensor < budget < leaf: discharged) and the notify_all obligations; progress of tofile() itself is not a VC",
                "byte-identity with the serial save for every interleaving: follows from L2 (pairwise disjoint ranges fixed "
                "before any worker starts, C07) and the commutation lemma below; the file system itself is trusted",
+               "callback never invoked concurrently: decided as dominance obligations on the source (every invocation on a pool thread is inside "
+               "`with callback_lock`, one lock per save, callbacks handed to submitted writers are None or the locking wrapper); `exactly "
+               "once per tensor` is bounded",
                "no schedules are explored"]
 BOUNDED = [{"name": 'C09 parallel vs serial bytes, callback once and never concurrently (also across shards), shared tensor one use at a time, failing worker (bounded, not a proof)', "script": "bounded_extdata.py", "args": ["--prop", 'C09']}]
 
@@ -285,3 +288,149 @@ def build(eng, tier):
                                                               "argument is not the caller's max_in_flight_bytes itself" if not ok else "created once from the caller's budget"),
                            backend="frame analysis (syntactic, onnx_ir.external_data)")
     eng.add_static("one-budget-per-save/sites", k >= 1, f"{k} construction sites of _ByteBudget found", backend="frame analysis (syntactic, onnx_ir.external_data)")
+
+
+_build_with_budget = build
+
+
+def build(eng, tier):
+    _build_with_budget(eng, tier)
+    add_callback_serialisation_obligations(eng)
+
+
+def add_callback_serialisation_obligations(eng):
+    """`the callback is never invoked concurrently`: decided on the real source of onnx_ir.external_data as dominance
+    obligations.  Work handed to an executor runs in other threads; in every function that hands work to an executor
+      (a) each call of the user's callback reachable from the submitted work lies inside `with <lock>:`,
+      (b) <lock> is one lock per save: created by a single assignment in the function that owns the executor, outside any
+          loop, comprehension or nested function,
+      (c) a callback passed on to a submitted writer is None or the result of the locking wrapper, and the wrapper factory
+          returns nothing but its locking wrapper."""
+    import ast
+    from pyvc import extract
+    path = extract.module_path(ED)
+    tree = ast.parse(open(path).read())
+    BK = "callback-serialised (syntactic dominance, onnx_ir.external_data)"
+    parents = {}
+    for n in ast.walk(tree):
+        for c in ast.iter_child_nodes(n):
+            parents[c] = n
+
+    def enclosing(n, kinds):
+        while n in parents:
+            n = parents[n]
+            if isinstance(n, kinds):
+                return n
+        return None
+
+    def chain(n):
+        out = []
+        while n in parents:
+            n = parents[n]
+            out.append(n)
+        return out
+
+    def under_lock(call):
+        """name of the lock of the innermost enclosing `with <name>:`"""
+        for a in chain(call):
+            if isinstance(a, ast.With):
+                for it in a.items:
+                    if isinstance(it.context_expr, ast.Name) and it.context_expr.id.endswith("callback_lock"):
+                        return it.context_expr.id
+            if isinstance(a, (ast.FunctionDef, ast.Lambda)) and not isinstance(a, ast.With):
+                # keep climbing only through the function that contains the call
+                break
+        return None
+    owners = []      # functions that create an executor
+    for fn in ast.walk(tree):
+        if isinstance(fn, ast.FunctionDef) and any(isinstance(c, ast.Call) and ast.unparse(c.func).endswith("ThreadPoolExecutor") for c in ast.walk(fn)):
+            if enclosing(fn, ast.FunctionDef) is None or True:
+                owners.append(fn)
+    eng.add_static("callback-serialised/owners", len(owners) >= 2, f"{len(owners)} functions create a thread pool (expected: the pooled writer and the shard driver)", backend=BK)
+    for fn in owners:
+        fname = fn.name
+        # (b) exactly one creation of the callback lock, directly in the owner's body (not in a loop / nested def)
+        creations = [n for n in ast.walk(fn) if isinstance(n, ast.Assign) and any(isinstance(t, ast.Name) and t.id == "callback_lock" for t in n.targets)]
+        okb = len(creations) == 1 and enclosing(creations[0], (ast.FunctionDef, ast.Lambda)) is fn and \
+            enclosing(creations[0], (ast.For, ast.While, ast.ListComp, ast.GeneratorExp, ast.DictComp, ast.SetComp)) is None and \
+            isinstance(creations[0].value, ast.Call) and ast.unparse(creations[0].value.func) == "threading.Lock"
+        eng.add_static(f"callback-serialised/{fname}/one-lock", okb,
+                       f"{len(creations)} assignment(s) to callback_lock in {fname}" + ("" if okb else ": the lock must be created exactly once per save, "
+                       "in the function that owns the thread pool, outside loops and nested functions"), backend=BK)
+        # (a) every invocation of a user callback inside nested functions of the owner (= code that runs on pool threads)
+        for inner in ast.walk(fn):
+            if not (isinstance(inner, ast.FunctionDef) and inner is not fn):
+                continue
+            par = enclosing(inner, ast.FunctionDef)
+            if par is not fn and par is not None and any(isinstance(r, ast.Return) and isinstance(r.value, ast.Name) and r.value.id == inner.name
+                                                          for r in ast.walk(par)):
+                continue        # a locking wrapper returned by a factory: obligation (c)
+            for c in ast.walk(inner):
+                if not isinstance(c, ast.Call) or enclosing(c, (ast.FunctionDef, ast.Lambda)) is not inner:
+                    continue
+                f = ast.unparse(c.func)
+                if f in ("inner", "callback", "self._callback", "self._invoke_callback", "job_callback", "shard_callback"):
+                    lk = under_lock(c)
+                    eng.add_static(f"callback-serialised/{fname}/{inner.name}@{f}", lk == "callback_lock",
+                                   f"{f}(...) at line {c.lineno} in {inner.name}: " + ("inside `with callback_lock`" if lk else "NOT inside `with callback_lock`"),
+                                   backend=BK)
+        # (c) callbacks handed to submitted writers: None, or the result of a locking-wrapper factory applied with THIS save's
+        # lock.  A factory is any function (nested or module level) whose every return is a nested wrapper that calls the
+        # factory's callback parameter only inside `with <lock>:`, the lock being a parameter or a variable of the owner.
+        def factory_info(fac):
+            wrappers = {x.name: x for x in fac.body if isinstance(x, ast.FunctionDef)}
+            rets = [r for r in ast.walk(fac) if isinstance(r, ast.Return) and enclosing(r, (ast.FunctionDef, ast.Lambda)) is fac]
+            if not wrappers or not rets or not all(isinstance(r.value, ast.Name) and r.value.id in wrappers for r in rets):
+                return None
+            params = [x.arg for x in fac.args.posonlyargs + fac.args.args + fac.args.kwonlyargs]
+            locks = set()
+            for w in wrappers.values():
+                for c in ast.walk(w):
+                    if isinstance(c, ast.Call) and isinstance(c.func, ast.Name) and c.func.id in params:
+                        lk = None
+                        for anc in chain(c):
+                            if anc is w:
+                                break
+                            if isinstance(anc, ast.With):
+                                for it in anc.items:
+                                    if isinstance(it.context_expr, ast.Name):
+                                        lk = it.context_expr.id
+                        if lk is None:
+                            return None
+                        locks.add(lk)
+            if len(locks) != 1:
+                return None
+            lk = next(iter(locks))
+            return {"lock": lk, "lock_param": params.index(lk) if lk in params else None, "params": params}
+        all_funcs = {n.name: n for n in ast.walk(tree) if isinstance(n, ast.FunctionDef)}
+        for c in ast.walk(fn):
+            if isinstance(c, ast.Call) and ast.unparse(c.func).endswith(".submit"):
+                for kw in c.keywords:
+                    if kw.arg != "callback":
+                        continue
+                    v = kw.value
+                    arms = [v.body, v.orelse] if isinstance(v, ast.IfExp) else [v]
+                    okk, why = True, ""
+                    for arm in arms:
+                        if isinstance(arm, ast.Constant) and arm.value is None:
+                            continue
+                        fac = all_funcs.get(arm.func.id) if isinstance(arm, ast.Call) and isinstance(arm.func, ast.Name) else None
+                        info = factory_info(fac) if fac is not None else None
+                        if info is None:
+                            okk, why = False, "not None and not the result of a locking-wrapper factory"
+                            break
+                        if info["lock_param"] is None:
+                            # the lock is a variable of the enclosing function: must be the owner's single lock
+                            if not (info["lock"] == "callback_lock" and enclosing(fac, ast.FunctionDef) is fn):
+                                okk, why = False, f"the wrapper locks {info['lock']}, which is not this save's callback_lock"
+                                break
+                        else:
+                            i = info["lock_param"]
+                            actual = arm.args[i] if i < len(arm.args) else next((k.value for k in arm.keywords if k.arg == info["lock"]), None)
+                            if not (isinstance(actual, ast.Name) and actual.id == "callback_lock"):
+                                okk, why = False, "the lock passed to the wrapper factory is not this save's callback_lock"
+                                break
+                    eng.add_static(f"callback-serialised/{fname}/submit-callback#{sum(1 for x in eng.obligations if '/submit-callback' in x.name and fname in x.name)}", okk,
+                                   f"callback handed to a pool thread at line {c.lineno}: {ast.unparse(v)[:90]}" + (f"  ({why})" if why else ""), backend=BK)
+    eng.assumptions_used.add("callback serialisation: the user's callback is recognised by name (callback / inner / self._callback / "
+                             "self._invoke_callback / job_callback / shard_callback) and the lock by the name callback_lock")
